@@ -168,7 +168,7 @@ func Conform(spec *dbgen.Spec, img *dbgen.Image) error {
 		for _, kw := range []string{"rowid", "_rowid_", "oid"} {
 			shadowed := false
 			for _, c := range t.ColNames {
-				if strings.EqualFold(c, kw) {
+				if SameID(c, kw) {
 					shadowed = true
 				}
 			}
